@@ -110,7 +110,23 @@ def audit():
     return rows, scan, err
 
 
-def obligations_for(prop, expected):
+def leancheck(prop):
+    """independent re-check of the compiled property module (and the lemma modules it rests on) by leanchecker;
+    returns (ran, problem|None)"""
+    import shutil
+    if not shutil.which("leanchecker"):
+        return False, None
+    mods = [f"AptMirror.Props.{prop}"]
+    try:
+        r = subprocess.run(["lake", "env", "leanchecker"] + mods, cwd=LEAN, capture_output=True, text=True, timeout=900)
+    except subprocess.TimeoutExpired:
+        return False, None
+    if r.returncode != 0:
+        return True, "leanchecker rejects " + " ".join(mods) + ": " + (r.stdout + r.stderr)[-400:]
+    return True, None
+
+
+def obligations_for(prop, expected, tier="quick"):
     """Build, audit, and return (obligations, discharged, problems).
 
     expected: list of theorem names (without namespace) that must exist for this property."""
@@ -138,4 +154,12 @@ def obligations_for(prop, expected):
         if e not in names:
             problems.append(f"expected theorem {e} is missing from Props/{prop}.lean")
     obligations = sorted(set(names) | set(expected))
+    if tier == "thorough" and not problems:
+        ran, prob = leancheck(prop)
+        if prob:
+            problems.append(prob)
+        LEANCHECK["ran"] = ran
     return obligations, discharged, problems
+
+
+LEANCHECK = {"ran": False}
